@@ -668,9 +668,18 @@ def real_bytes_of_str(text: str, assemble: bool = False):
 
 # ---------------------------------------------------------------------------
 # (2) regex -> z3
-def re_to_z3(pattern: str):
+def re_to_z3(pattern: str, how: str = "fullmatch"):
+    """the language a compiled pattern accepts when used with fullmatch / match (Python semantics of the anchors:
+    with match, `$` also holds just before one trailing line feed, and without `$` anything may follow)"""
     import re._parser as sp
     tree = sp.parse(pattern)
+    if how not in ("fullmatch", "match"):
+        raise HarnessError("regex used with %s" % how)
+    items_top = list(tree)
+    ends_anchored = bool(items_top) and str(items_top[-1][0]) == "AT" and str(items_top[-1][1]) in ("AT_END", "AT_END_STRING")
+    for k, (op, av) in enumerate(items_top):
+        if str(op) == "AT" and not ((k == 0 and str(av) in ("AT_BEGINNING", "AT_BEGINNING_STRING")) or (k == len(items_top) - 1 and ends_anchored)):
+            raise HarnessError("an anchor in the middle of a pattern is not modelled")
 
     def conv(items):
         parts = [one(op, av) for op, av in items]
@@ -693,7 +702,9 @@ def re_to_z3(pattern: str):
     def one(op, av):
         o = str(op)
         if o == "AT":
-            return None          # anchors: the patterns are used with fullmatch
+            if how == "match" and str(av) == "AT_END":
+                return z3.Option(z3.Re("\n"))      # `$` under match: the end, or just before one trailing line feed
+            return None          # leading `^` / trailing `$` under fullmatch add nothing
         if o == "LITERAL":
             return z3.Re(chr(av))
         if o == "IN":
@@ -715,7 +726,10 @@ def re_to_z3(pattern: str):
             return z3.Loop(r, lo, hi)
         raise HarnessError("regex construct %s is not supported" % o)
 
-    return conv(list(tree))
+    r = conv(list(tree))
+    if how == "match" and not ends_anchored:
+        r = z3.Concat(r, z3.Full(z3.ReSort(z3.StringSort())))       # match only anchors the beginning
+    return r
 
 
 def source_patterns():
@@ -728,20 +742,20 @@ def source_patterns():
         pats = [n.args[0].value for n in ast.walk(fn) if isinstance(n, ast.Call) and isinstance(n.func, ast.Attribute) and n.func.attr == "compile"
                 and n.args and isinstance(n.args[0], ast.Constant)]
         how = [n.func.attr for n in ast.walk(fn) if isinstance(n, ast.Call) and isinstance(n.func, ast.Attribute) and n.func.attr in ("fullmatch", "match", "search")]
-        if len(pats) != 1 or how != ["fullmatch"]:
-            raise HarnessError("%s: expected one re.compile literal used with fullmatch, found %r / %r" % (name, pats, how))
+        if len(pats) != 1 or len(how) != 1 or how[0] not in ("fullmatch", "match"):
+            raise HarnessError("%s: expected one re.compile literal used with fullmatch or match, found %r / %r" % (name, pats, how))
         even = False
         for st in fn.body:
             if isinstance(st, ast.If):
                 t = st.test
-                is_match_guard = any(isinstance(n, ast.Attribute) and n.attr == "fullmatch" for n in ast.walk(t))
+                is_match_guard = any(isinstance(n, ast.Attribute) and n.attr in ("fullmatch", "match") for n in ast.walk(t))
                 is_parity = (isinstance(t, ast.BinOp) and isinstance(t.op, ast.Mod) and isinstance(t.right, ast.Constant) and t.right.value == 2
                              and isinstance(t.left, ast.Call) and getattr(t.left.func, "id", "") == "len")
                 if is_parity and st.body and isinstance(st.body[-1], ast.Raise):
                     even = True
                 elif not is_match_guard:
                     raise HarnessError("%s: an extra guard that is not modelled: %s" % (name, ast.dump(t)[:80]))
-        out[name] = (pats[0], even)
+        out[name] = (pats[0], even, how[0])
     return out
 
 
@@ -765,8 +779,8 @@ def validator_obligations(timeout_ms):
     obs, members = [], []
     pats = source_patterns()
     refs = reference_grammars()
-    for name, (pat, even) in pats.items():
-        r_src = re_to_z3(pat)
+    for name, (pat, even, how) in pats.items():
+        r_src = re_to_z3(pat, how)
         r_ref = refs[name]
         x = z3.String("x")
         if even:
@@ -968,8 +982,8 @@ def constructor_obligations(timeout_ms):
                     raise HarnessError("Bytes.__init__: a %s path ends without validating / setting the text" % base)
                 acc = list(pc)
                 for vn, term in val:
-                    pat, even = pats[vn]
-                    r = re_to_z3(pat)
+                    pat, even, how = pats[vn]
+                    r = re_to_z3(pat, how)
                     if even:
                         anyc = z3.AllChar(z3.ReSort(z3.StringSort()))
                         r = z3.Intersect(r, z3.Star(z3.Concat(anyc, anyc)))     # even length, as a regular constraint
